@@ -43,3 +43,23 @@ chk("C17", "E2 pure-function enumerator + value check",
     "unify_chunks_expr is run on every pair of chunkings of a 1-D axis, every triple on a smaller axis, every pair of 2-D chunkings and every broadcast pattern under each policy and limit; common layout, refine-only-splits and the block-growth bound are checked on every result and elemwise/blockwise values are compared with NumPy.",
     "Trusted: limit None = unbounded; small shapes.",
     "DESIGN.md §4 C17")
+chk("C12", "E1 (depth-1 exhaustive argument enumeration)",
+    "complete enumeration of (chunking x index) on the real __getitem__/vindex/blocks against NumPy indexing",
+    "Every 1-D index of IDX(n) (all ints, all slices with bounded start/stop/step, None/Ellipsis, int lists, masks, dask indexers under every indexer chunking, .blocks, indexing after an unknown-size mask) under every chunking of every n<=6 (plus layouts with zero-size blocks), and the 2-D cross product of per-axis index classes incl. .vindex and .blocks, is evaluated through the real API and compared with NumPy; out-of-bounds must raise.",
+    "Trusted: NumPy indexing; documented NotImplementedError forms are refusals; dask's vindex puts the pointwise axis first.",
+    "DESIGN.md §4 C12")
+chk("C14", "E1 (depth-1/2 exhaustive argument enumeration)",
+    "complete enumeration of (source chunking x target spec) and rechunk positions in short programs; chunks vs normalize_chunks, values vs NumPy, block layout",
+    "Every source chunking x every accepted target spec goes through x.rechunk: chunks equal normalize_chunks of the resolved spec, values are unchanged and every block has the advertised size; the same with a rechunk placed at every position of short programs over elemwise/transpose/concatenate/expand_dims/slices/second rechunks.",
+    "Trusted: normalize_chunks (C16) as the spec resolver; NumPy values.",
+    "DESIGN.md §4 C14")
+chk("C18", "E1 (depth <= 2 exhaustive argument enumeration)",
+    "complete enumeration of reduction x chunking x axis set x keepdims x split_every x dtype x NaN placement against NumPy",
+    "Every reduction of the family over every chunking of the small shapes, every axis subset, keepdims, split_every (int and per-axis dict), dtypes and NaN placements is computed through the real tree reduction and compared with NumPy, including arg-reduction ties, all-NaN slices, slices pushed through reductions, weighted average and topk.",
+    "Trusted: NumPy; tolerance 1e-9 for inexact reductions.",
+    "DESIGN.md §4 C18")
+chk("C19", "E1 (depth-1 exhaustive argument enumeration)",
+    "complete enumeration of (chunking x window/depth/boundary/method) for windows, overlaps and scans against NumPy definitions",
+    "sliding_window_view alone and under every reducer for every n<=8, chunking and window; map_overlap under every boundary kind/depth against np.pad semantics; overlap+trim identity; bottleneck moving windows through map_overlap; diff/gradient; cumulative scans sequential and blelloch -- all enumerated completely on the implementation.",
+    "Trusted: numpy.lib.stride_tricks.sliding_window_view, np.pad, bottleneck on the whole array as references.",
+    "DESIGN.md §4 C19")
